@@ -84,6 +84,7 @@ func (ds *dataStore) AppendRecord(rec *Record) (pos Position, err error) {
 	pos.Offset = currOffset
 	wrec.pos = pos
 	ds.chunks[ds.newHead].AppendRecord(wrec)
+	vhook.PointI("data.append.afterPublish", int64(pos.ChunkID), int64(pos.Offset))
 	ds.wbufSize += size
 
 	if wrec.rec.Payload.Ver > 0 {
